@@ -254,7 +254,7 @@ class Interp(object):
         self.probe(action, "inside action %s" % node["nid"])
         self.exec_children(node["children"], gt["children"], action)
         self.probe(action, "inside action %s after children" % node["nid"])
-        if node.get("outcome") == "raise":
+        if node.get("outcome") == "raise" and not node.get("early_finish"):
             exc = excs.make(node["exc"], "nid=%d" % node["nid"])
             self.crossmap[id(exc)] = node.get("cross", 0)
             self._keep = getattr(self, "_keep", [])
@@ -297,7 +297,7 @@ class Interp(object):
             return self._exec_gen_style(node, gt, gt_children, cur, start, success_expected)
 
         # ---- start the action
-        if style in ("with", "ctx_finish", "run_finish"):
+        if style in ("with", "ctx_finish", "run_finish", "ctx_finish_inside", "pre_created"):
             ok, action = self.api("start_action", start_action, action_type=t, **start)
         elif style == "start_task":
             ok, action = self.api("start_task", start_task, action_type=t, **start)
@@ -330,9 +330,29 @@ class Interp(object):
             finally:
                 self.probe(action, "after leaving re-entered %s of action %s" % (kinds[0], node["nid"]))
 
+        early = [None]
+
         def guarded_body():
             try:
                 reentered(node.get("reenter") or [])
+                if node.get("early_finish"):
+                    # the program finishes the action itself at the very end of the block; __exit__ must then add nothing
+                    # and must not swallow whatever the block raises afterwards
+                    self.count("early_finish")
+                    if node["early_finish"] == "exc":
+                        early[0] = excs.make("RuntimeError", "early finish nid=%d" % node["nid"])
+                        self.api("Action.finish(exc) inside the block", action.finish, early[0])
+                    else:
+                        self.api("add_success_fields", action.add_success_fields, **success)
+                        self.api("Action.finish() inside the block", action.finish)
+                        early[0] = "ok"
+                    if node.get("outcome") == "raise":
+                        exc = excs.make(node["exc"], "after early finish nid=%d" % node["nid"])
+                        self.crossmap[id(exc)] = node.get("cross", 0)
+                        self._keep = getattr(self, "_keep", [])
+                        self._keep.append(exc)
+                        raise exc
+                    return
                 if len(success) >= 2 and node["nid"] % 2:
                     # success fields may be added in several calls
                     ks = list(success)
@@ -350,6 +370,35 @@ class Interp(object):
                     guarded_body()
             except BaseException as e:
                 out = e
+        elif style == "pre_created":
+            # the action object was created above (under `cur`) but its block is entered inside another action:
+            # leaving the block must restore the action current at ENTRY (the wrapper), not the one current at creation
+            wrap_gt = {"kind": "action", "type": "wrap", "nid": "w%s" % node["nid"], "style": "with", "start": {"nid": "w%s" % node["nid"]}, "status": "started",
+                       "end": None, "children": []}
+            try:
+                with start_action(action_type="wrap", nid="w%s" % node["nid"]) as wrapper:
+                    self._attach(None if cur is None else gt_children, wrap_gt)
+                    try:
+                        with action:
+                            guarded_body()
+                    except BaseException as e:
+                        out = e
+                    self.probe(wrapper, "after leaving action %s entered inside another action than it was created under" % node["nid"])
+                wrap_gt["status"], wrap_gt["end"] = "succeeded", {}
+            except BaseException as e:  # pragma: no cover
+                self.viol("wrapper action raised %r" % (e,))
+        elif style == "ctx_finish_inside":
+            # finish() called while the action's own context() is still entered
+            try:
+                with action.context():
+                    try:
+                        guarded_body()
+                    except BaseException as e:
+                        out = e
+                    self.api("Action.finish inside its own context()", action.finish, out)
+                    self.probe(action, "after finish() inside action %s's own context()" % node["nid"])
+            except BaseException as e:
+                self.viol("leaving context() of action %s raised %r" % (node["nid"], e))
         elif style == "ctx_finish":
             try:
                 with action.context():
@@ -368,7 +417,21 @@ class Interp(object):
         self.probe(cur, "after leaving action %s (%s)" % (node["nid"], "raise" if out is not None else "return"))
         if style in ("ctx_finish", "run_finish"):
             self.api("Action.finish", action.finish, out)
-        self._finish_gt(gt, node, out, success_expected)
+        if early[0] is None:
+            self._finish_gt(gt, node, out, success_expected)
+        elif early[0] == "ok":
+            self._finish_gt(gt, node, None, success_expected)
+        else:
+            self._finish_gt(gt, node, early[0], success_expected)
+        for kind in node.get("enter_after_finish", ()):
+            # entering the context()/run() of an action that has already finished still makes it the current action
+            self.count("enter_after_finish:" + kind)
+            if kind == "run":
+                action.run(lambda: self.probe(action, "inside run() of the finished action %s" % node["nid"]))
+            else:
+                with action.context():
+                    self.probe(action, "inside context() of the finished action %s" % node["nid"])
+            self.probe(cur, "after leaving %s of the finished action %s" % (kind, node["nid"]))
         for i in range(node.get("extra_finish", 0)):
             self.count("extra_finish")
             if i % 2:
